@@ -747,6 +747,7 @@ func (ex *Exec) havocModifies(spec *FuncSpec, ev *Eval, pre, post *State, callee
 		return
 	}
 	allocHavoc := false
+	var havocked [][3]string
 	for _, m := range spec.Modifies {
 		for _, loc := range splitTop(m.Text, ',') {
 			if loc == "nothing" || loc == "" {
@@ -760,6 +761,7 @@ func (ex *Exec) havocModifies(spec *FuncSpec, ev *Eval, pre, post *State, callee
 			for _, tg := range targets {
 				cur := ex.get(post, tg.key, tg.sort)
 				fresh := ex.vc.fresh("hv_"+tg.key, tg.sort)
+				havocked = append(havocked, [3]string{tg.key, tg.sort, fresh})
 				if tg.all {
 					ex.set(post, tg.key, tg.sort, fresh)
 				} else {
@@ -776,6 +778,11 @@ func (ex *Exec) havocModifies(spec *FuncSpec, ev *Eval, pre, post *State, callee
 	ex.vc.assume(fmt.Sprintf("(forall ((r Int)) (! (=> (select %s r) (select %s r)) :pattern ((select %s r))))", al, nal, nal))
 	ex.vc.assume(sNot(sSel(nal, "0")))
 	ex.set(post, "alloc", "(Array Int Bool)", nal)
+	for _, h := range havocked {
+		if f := memInv(h[0], h[1], h[2], nal); f != "" {
+			ex.vc.assume(f)
+		}
+	}
 }
 
 // ---------------------------------------------------------------- closures
